@@ -9,6 +9,7 @@ import (
 	"log/slog"
 	"os"
 	"os/exec"
+	"reflect"
 	"strconv"
 	"strings"
 	"sync"
@@ -249,6 +250,10 @@ func runC15(c *hx.Ctx) *hx.Outcome {
 		}
 		if vandal {
 			// what one consumer does with its copy must not reach another's
+			// (including the decoded structure its copy points to)
+			if rv := reflect.ValueOf(m.Readable); rv.Kind() == reflect.Ptr && !rv.IsNil() && rv.Elem().CanSet() {
+				rv.Elem().Set(reflect.Zero(rv.Elem().Type()))
+			}
 			m.ErrorMessage = "overwritten by a consumer"
 			m.Readable = "overwritten by a consumer"
 			m.MessageType = 4095
